@@ -121,8 +121,8 @@ def run(ctx):
         cases.append(("corpus:" + nm, text, "m.emb", None, None, exp))
     for p in sorted(glob.glob(os.path.join(fw.REPO, "testdata", "*.emb"))):
         rel = os.path.relpath(p, fw.REPO)
-        cases.append(("testdata:" + rel, open(p).read(), rel, None, None, {"expect": "accept"}))
-    n_base = 40 if ctx.thorough() else 7
+        cases.append(("testdata:" + rel, open(p).read(), rel, None, None, {}))
+    n_base = 40 if ctx.thorough() else 5
     for i in range(n_base):
         base = gt.Base(ctx.rng, depth=ctx.rng.choice([1, 2, 2, 3]))
         c = base.case()
